@@ -28,11 +28,18 @@
    Numbers are uint64 in the code; the spec works on naturals below Wrap and maps every wrapped /
    huge value to Wrap (the harness clamps its log the same way), see UMinus.
 
-   Huge CU: a relay whose CuSum is 2^64-5 is written cu = Wrap.  The spec compares and adds on the
-   naturals (Sat), i.e. it states the INTENDED behaviour: such a relay can never fit a badge
-   allocation or a limit.  The code as found adds in uint64 and wraps (F2b: checkBadge accepts it,
-   usage counters shrink); the repaired comparison (fixes/F2b_badge_cu_overflow.patch) behaves like
-   the spec.  Only the c18 generator draws it (mutation "badgehuge").
+   Huge CU: three symbolic CuSum values stand for numbers near the top of uint64 (the driver maps
+   them, the log clamps them to Wrap): cu = 1000000 is 2^64-5, cu = 1000001 is 2^63 (MaxInt64+1),
+   cu = 1000002 is 2^63-1 (MaxInt64).  The spec compares and adds on the naturals (Sat), i.e. it
+   states the INTENDED behaviour: such a relay can never fit a badge allocation or a limit, and its
+   credit is bounded like any other relay's.  The code as found adds in uint64 and wraps:
+     F2b  checkBadge accepted CuSum = 2^64-5 once a usage record existed (fixes/F2b_badge_cu_overflow.patch);
+     F2c  AddEpochPayment: ProviderConsumerEpochCu 60 + (2^64-5) = 55, every limit passes, the relay is
+          rewarded 2^64-5 CU, project UsedCu and tracked CU shrink (fixes/F2c_cu_sum_overflow.patch:
+          a CuSum that does not fit in int64 is rejected next to the epoch checks = constant CuGuard).
+   Without CuGuard the spec does NOT transcribe the wrapped additions (Conf drift is expected on such
+   relays and only on them; Obs decides).  The c04 generator draws all three values, the c18 generator
+   2^64-5 on badge relays.
 
    F2Fixed selects the transcription of EnforceClientCUsUsageInEpoch: FALSE = the code as found
    (`return effectivePolicyTotalCu - project.UsedCu` in the total-limit branch), TRUE = the repaired
@@ -49,6 +56,7 @@ CONSTANTS Creators,     \* providers that send transactions
           MaxEpoch,     \* epochs explored
           MaxOps, GenHist,
           F2Fixed,      \* which transcription of EnforceClientCUsUsageInEpoch (see above)
+          CuGuard,      \* TRUE: relays with CuSum > MaxInt64 are rejected (F2c repaired)
           Profile       \* generator bias: "c03" | "c04" | "c05" | "c18" ("" for exhaustive runs)
 
 VARIABLES cur, off,     \* current epoch index, blocks since its start (0 or 1)
@@ -110,15 +118,20 @@ BadgeExpired(b, c, o) == BlockLe(b.e + EpochsToSave, b.o, c, o)
 
 -----------------------------------------------------------------------------
 \* EnforceClientCUsUsageInEpoch(relayCU, epochAllowedCU, totalCUInEpochForUserProvider, ...)
-EpochPart(cu, limit, total) ==
-  IF total > limit THEN (IF total - cu <= limit THEN limit - (total - cu) ELSE 0) ELSE cu
-Enforce(cu, allowed, total, pr, usedNow, dfe) ==
+\* orig = the provider/project epoch total before this relay (the code recomputes it as total - relayCU)
+TooBig(cu) == cu \in {1000000, 1000001}                 \* CuSum > MaxInt64
+EpochPart(cu, limit, orig, total) ==
+  IF total > limit THEN (IF orig <= limit THEN limit - orig ELSE 0) ELSE cu
+Enforce(cu, allowed, orig, total, pr, usedNow, dfe) ==
   IF F2Fixed
-  THEN LET r == EpochPart(cu, allowed * dfe, total) IN
-       IF ~(total < EffTotal(pr)) THEN MinOf({r, SatSub(EffTotal(pr), usedNow)}) ELSE r
+  THEN LET left == SatSub(EffTotal(pr), usedNow)                              \* cuLeftInProject
+           shrink == ~(total < EffTotal(pr)) /\ cu > left                      \* relayCU > cuLeftInProject
+           cu2 == IF shrink THEN left ELSE cu
+           total2 == IF shrink THEN Sat(orig + left) ELSE total IN            \* total -= relayCU - cuLeftInProject
+       EpochPart(cu2, allowed * dfe, orig, total2)
   ELSE IF ~(total < EffTotal(pr))                       \* !VerifyTotalCuUsage(effectiveTotal, total)
        THEN UMinus(EffTotal(pr), usedNow)               \* effectivePolicyTotalCu - project.UsedCu
-       ELSE EpochPart(cu, allowed * dfe, total)
+       ELSE EpochPart(cu, allowed * dfe, orig, total)
 
 \* CalculateEffectiveAllowedCuPerEpochFromPolicies: min(epoch limit, total - used (uint64!), sub left)
 AllowedCU(pr, usedNow, left) == MinOf({EffEpoch(pr), UMinus(EffTotal(pr), usedNow), left})
@@ -149,6 +162,7 @@ ProcessRelay(S, p, r, bm) ==
   ELSE IF r.pf # p THEN Hard(S)                                       \* creator and signed provider mismatch
   ELSE IF ~r.lc THEN Rej(S)                                           \* wrong lava chain id
   ELSE IF r.e < 0 \/ ~BlockLe(r.e, r.o, cur, off) THEN Rej(S)          \* block in the future / negative
+  ELSE IF CuGuard /\ TooBig(r.cu) THEN Rej(S)                          \* CU sum does not fit in int64 (F2c)
   ELSE
     LET signer0 == IF r.tm # "none" THEN "x" ELSE r.sg                \* tampered: some unregistered key is recovered
         cand == {b \in bm : b.u = signer0 /\ b.e = r.e /\ b.o = r.o}
@@ -178,7 +192,7 @@ ProcessRelay(S, p, r, bm) ==
           ck == <<pr, r.sp, r.e>>
           hit == Has(S1.pcache, ck)
           allowed == IF hit THEN Get(S1.pcache, ck) ELSE AllowedCU(pr, S1.used[pr], S1.mleft)
-          rew == Enforce(r.cu, allowed, total, pr, S1.used[pr], df[r.e + 1])
+          rew == Enforce(r.cu, allowed, Get(S.pcec, g), total, pr, S1.used[pr], df[r.e + 1])
           cred == IF r.q = "zero" THEN Half(rew) ELSE rew              \* QoS weight 0.5: score 0 halves, score 1 keeps
       IN
       IF ~SpecOK(r.sp) THEN Hard(S1)                                   \* spec not found or disabled
@@ -360,7 +374,7 @@ GMuts == CASE Profile = "c03" -> ("none" :> 12 @@ "qzero" :> 1 @@ "badge" :> 2 @
            [] Profile = "c18" -> ("badge" :> 6 @@ "badgesmall" :> 6 @@ "badgehuge" :> 1 @@ "none" :> 2 @@ "badgeuser" :> 1 @@ "badgeepoch" :> 1 @@ "badgechain" :> 1
                                   @@ "badgeissuer" :> 1 @@ "badgeplain" :> 1 @@ "qzero" :> 1 @@ "expired" :> 1)
            [] OTHER -> [m \in Muts |-> IF m = "none" THEN Cardinality(Muts) ELSE 1]
-GCUs == CASE Profile = "c04" -> (10 :> 1 @@ 60 :> 3 @@ 100 :> 2 @@ 150 :> 3 @@ 1000 :> 1)
+GCUs == CASE Profile = "c04" -> (10 :> 2 @@ 60 :> 7 @@ 100 :> 5 @@ 150 :> 7 @@ 1000 :> 2 @@ 1000000 :> 1 @@ 1000001 :> 1 @@ 1000002 :> 1)
           [] Profile = "c18" -> (10 :> 1 @@ 60 :> 2 @@ 100 :> 1 @@ 150 :> 1)
           [] OTHER -> Uniform(CUs)
 GSigners == CASE Profile = "c04" -> ("k1" :> 3 @@ "c1" :> 1)
@@ -371,14 +385,15 @@ GCreators == IF Profile = "c05" THEN Uniform(Creators) ELSE [p \in Creators |-> 
 GenRelay1(p, sg, e, ss, cu, m) == Mut(Base(p, sg, e, ss, cu), m)
 GenRelay(p) == GenRelay1(p, Pick(GSigners), Pick((cur :> 3) @@ Uniform({x \in {cur - 1, cur - 2} : x >= 0})),
                          Pick(Uniform(Sessions)), Pick(GCUs), Pick(GMuts))
-\* dup = 1: second relay repeats the first, 2: same session re-signed with another CU, 3 (c18 only): huge CuSum
+\* dup = 1: second relay repeats the first, 2: same session re-signed with another CU, 3 (c18, c04): huge CuSum
 GenPay2(p, n, dup, r1, r2, r3, cu2) ==
   LET r2d == IF dup = 1 THEN r1 ELSE IF dup = 2 THEN [r1 EXCEPT !.cu = cu2]
-             ELSE IF dup = 3 /\ r1.b.u # "-" /\ r1.b.u = r1.sg THEN [r1 EXCEPT !.cu = Wrap, !.ss = (r1.ss % 3) + 1]      \* same badge, another session, CuSum = 2^64-5
+             ELSE IF dup = 3 /\ (Profile = "c04" \/ (r1.b.u # "-" /\ r1.b.u = r1.sg))
+                  THEN [r1 EXCEPT !.cu = Wrap, !.ss = (r1.ss % 3) + 1]      \* same signer/badge/epoch, another session, CuSum = 2^64-5
              ELSE r2
       rs == IF n = 1 THEN <<r1>> ELSE IF n = 2 THEN <<r1, r2d>> ELSE <<r1, r2d, r3>>
   IN RelayPay(p, rs)
-GenPay1(p) == GenPay2(p, Pick(Uniform(1..MaxRelays)), Pick(0 :> 2 @@ 1 :> 1 @@ 2 :> 1 @@ 3 :> (IF Profile = "c18" THEN 1 ELSE 0)), GenRelay(p), GenRelay(p), GenRelay(p), Pick(GCUs))
+GenPay1(p) == GenPay2(p, Pick(Uniform(1..MaxRelays)), Pick(0 :> 4 @@ 1 :> 2 @@ 2 :> 2 @@ 3 :> (IF Profile \in {"c18", "c04"} THEN 1 ELSE 0)), GenRelay(p), GenRelay(p), GenRelay(p), Pick(GCUs))
 GenPay == GenPay1(Pick(GCreators))
 GenStep(k, d) ==
   \/ k = "pay" /\ GenPay
